@@ -3,6 +3,8 @@
 // file is checked against a reference model of schedule, axes, projections, moments, wake convolution,
 // CSR sum and unit factors, re-derived independently in double precision.
 #include "common.hpp"
+#include "IO/Display.hpp"
+#include "Z/ImpedanceFactory.hpp"
 #include <complex>
 #include <cstring>
 
@@ -33,6 +35,7 @@ struct C10 : Scenario {
         o.max_grid = tier == "quick" ? 32 : 56;
         o.max_rot_steps = tier == "quick" ? 12 : 30;
         Cfg c = swarm_cfg(r, o);
+        if (r.chance(0.5)) vary_machine(r, c);
         // distinct currents make per-bunch rows distinguishable
         if (c.currents.size() > 1) {
             double base = 0.7e-3;
@@ -162,6 +165,16 @@ struct C10 : Scenario {
         double drift_seen = 0;
         for (size_t k = 0; k < nrec; k++) for (unsigned b = 0; b < nb; b++) drift_seen = std::max(drift_seen, std::fabs((double)pop[k * nb + b] / d.shares[b] - 1));
         float dfreq = (1.0f / d.delta_q) / float((unsigned)d.padded_bins - 1);
+        // Re Z of the radiation impedance at bin nmax/2 (only used to recognise the known Nyquist-bin finding exactly)
+        double zrad_mid = -1, zrad_max = 0;
+        {
+            const double cl = 2.99792458e8;
+            vfps::Display::silent_mode = true;
+            auto zr = vfps::makeImpedance(d.padded_bins, nullptr, d.fmax, d.R_bend, d.f_rev, (cfg.gap > 0) ? cfg.gap : -1);
+            vfps::Display::silent_mode = false;
+            (void)cl;
+            if (zr && zr->nFreqs() > d.padded_bins / 2) { zrad_mid = (*zr)[d.padded_bins / 2].real(); for (size_t i = 0; i <= d.padded_bins / 2; i++) zrad_max = std::max(zrad_max, (double)(*zr)[i].real()); }
+        }
         Schedule sch = schedule(cfg, executed);
         for (size_t k = 0; k < nrec; k++) {
             unsigned step = k < sch.out_steps.size() ? sch.out_steps[k] : 0;
@@ -198,8 +211,14 @@ struct C10 : Scenario {
                 {
                     // rows carry "that bunch": population/share must be the same for all bunches (charge may be lost at the
                     // grid border, equally for equal shapes); judged only while most of the charge is still there
-                    double r0 = pop[k * nb + 0] / d.shares[0], rb_ = pop[k * nb + b] / d.shares[b];
-                    if (r0 > 0.5 && std::fabs(rb_ / r0 - 1) > 0.1) o.fail("C10.bunch_rows", at + ": row " + std::to_string(b) + " holds population " + fmt_g(pop[k * nb + b], 6) + " but that bunch's share of the filling is " + fmt_g(d.shares[b], 6) + " (row 0: " + fmt_g(pop[k * nb], 6) + " of " + fmt_g(d.shares[0], 6) + ")");
+                    bool intact = true;
+                    for (unsigned c2 = 0; c2 < nb; c2++) if (std::fabs(pop[k * nb + c2] / d.shares[c2] - 1) > 0.2) intact = false;
+                    unsigned nearest = b; double best = 1e300;
+                    for (unsigned c2 = 0; c2 < nb; c2++) { double dd = std::fabs(pop[k * nb + b] - d.shares[c2]); if (dd < best) { best = dd; nearest = c2; } }
+                    bool distinct = true;
+                    for (unsigned c2 = 0; c2 < nb; c2++) if (c2 != b && std::fabs(d.shares[c2] / d.shares[b] - 1) < 0.5) distinct = false;
+                    // judged while no bunch has lost more than 20 % (different currents legitimately lose differently at the border)
+                    if (intact && distinct && nearest != b) o.fail("C10.bunch_rows", at + ": row " + std::to_string(b) + " holds population " + fmt_g(pop[k * nb + b], 6) + ", which is bunch " + std::to_string(nearest) + "'s share of the filling (" + fmt_g(d.shares[nearest], 6) + "), not its own (" + fmt_g(d.shares[b], 6) + ")");
                 }
                 double mq = 0, mp = 0;
                 for (unsigned i = 0; i < n; i++) { mq += (double)P[i] * d.q(i); mp += (double)E[i] * d.p(i); }
@@ -218,7 +237,12 @@ struct C10 : Scenario {
                     double sum = 0; size_t m = d.padded_bins / 2;
                     for (size_t i = 0; i < m; i++) sum += spec[(k * nb + b) * m + i];
                     sum *= dfreq;
-                    if (std::fabs(sum - inten[k * nb + b]) > 1e-4 * std::fabs(sum) + 1e-30) {
+                    // single-precision noise floor of the spectrum: (1e-6 |F(0)|)^2 at the largest impedance; below it intensity
+                    // and spectrum are both rounding noise of the float FFT and are not judged
+                    double f00 = 0; for (unsigned x = 0; x < n; x++) f00 += (double)P[x];
+                    double floor_ = (double)dfreq * (double)d.delta_q * (double)d.delta_q * zrad_max * f00 * f00 * 1e-10;
+                    if (std::fabs((double)inten[k * nb + b]) < floor_) o.probe("reach.csr_below_single_precision_floor");
+                    else if (std::fabs(sum - inten[k * nb + b]) > 1e-4 * std::fabs(sum) + 1e-30) {
                         // Is the difference the Nyquist bin (index nmax/2), which enters the intensity but is not stored?
                         // |F(Nyquist)|^2 follows from the stored profile; Re Z there is extrapolated from the last stored bin.
                         double fN = 0, fL_re = 0, fL_im = 0;
@@ -236,14 +260,41 @@ struct C10 : Scenario {
                         auto cut = [&](double i) { if (cfg.fc <= 0) return 1.0; double f = hz * (double)dfreq * i / (double)(float)cfg.fc; return 1 - std::exp(-f * f); };
                         double lastbin = spec[(k * nb + b) * m + (m - 1)];
                         double T = normL > 0 ? (double)dfreq * lastbin * (fN * fN / normL) * cut((double)m) / std::max(cut((double)m - 1), 1e-300) : 0;
+                        // sharper: Re Z of the radiation impedance at the missing bin from the program's own model
+                        if (zrad_mid >= 0) T = (double)dfreq * (double)d.delta_q * (double)d.delta_q * cut((double)m) * zrad_mid * fN * fN;
                         double missing = inten[k * nb + b] - sum;
                         // (Re Z at the missing bin is only extrapolated from its neighbour: accept a factor 10 either way)
-                        if (T > 0 && missing > 0 && missing >= 0.1 * T && missing <= 10 * T + 1e-4 * std::fabs(sum))
+                        if (T > 0 && missing > 0 && (zrad_mid >= 0 ? std::fabs(missing - T) <= 0.02 * T + 2e-4 * std::fabs(sum) : (missing >= 0.1 * T && missing <= 10 * T + 1e-4 * std::fabs(sum))))
                             o.fail("C10.csr_nyquist_bin_not_stored", at + " bunch " + std::to_string(b) + ": CSR intensity " + fmt_g(inten[k * nb + b], 9) + " exceeds the sum of the stored spectrum " + fmt_g(sum, 9) + " by the Nyquist bin (estimated " + fmt_g(T, 6) + "), which the file does not store");
                         else
                             o.fail("C10.csr_intensity_is_sum", at + " bunch " + std::to_string(b) + ": CSR intensity " + fmt_g(inten[k * nb + b], 9) + " but the stored spectrum sums to " + fmt_g(sum, 9) + " (Nyquist-bin estimate " + fmt_g(T, 6) + ")");
                     }
                 } else o.fail("C10.structure", "CSR dataset shapes");
+            }
+            // each bunch's spectrum row holds that bunch: spectrum[b][i] / |DFT(profile_b)[i]|^2 is the same function of the
+            // frequency for every bunch (radiation impedance times cutoff), whatever it is
+            if (nb > 1 && spec.size() == nrec * nb * (d.padded_bins / 2)) {
+                const size_t NN = d.padded_bins, m = NN / 2;
+                auto ff2 = [&](unsigned b, size_t i) {
+                    double re = 0, im = 0;
+                    for (unsigned x = 0; x < n; x++) { double ph = -2 * M_PI * (double)((x * i) % NN) / (double)NN; re += (double)prof[(k * nb + b) * n + x] * std::cos(ph); im += (double)prof[(k * nb + b) * n + x] * std::sin(ph); }
+                    return re * re + im * im;
+                };
+                double f0max = 0;
+                std::vector<double> f0(m);
+                for (size_t i = 0; i < m; i++) { f0[i] = ff2(0, i); f0max = std::max(f0max, f0[i]); }
+                for (unsigned b = 1; b < nb && !o.has("C10.spectrum_rows"); b++) {
+                    o.checks++;
+                    double fbmax = 0; std::vector<double> fb(m);
+                    for (size_t i = 0; i < m; i++) { fb[i] = ff2(b, i); fbmax = std::max(fbmax, fb[i]); }
+                    for (size_t i = 1; i < m; i++) {
+                        double s0 = spec[(k * nb + 0) * m + i], sb = spec[(k * nb + b) * m + i];
+                        // (bins where the single-precision product Re Z * |F|^2 is close to the subnormal range carry no precision)
+                        if (!(f0[i] > 1e-4 * f0max && fb[i] > 1e-4 * fbmax && s0 > 1e-30 && sb > 1e-30)) continue;
+                        double r0 = s0 / f0[i], rb = sb / fb[i];
+                        if (std::fabs(rb / r0 - 1) > 5e-3) { o.fail("C10.spectrum_rows", at + ": CSR spectrum row of bunch " + std::to_string(b) + " at bin " + std::to_string(i) + " is " + fmt_g(rb / r0, 6) + " times what bunch 0's row implies for that bunch's stored profile (transform length " + std::to_string(NN) + ")"); break; }
+                    }
+                }
             }
             // wake potential = scaled inverse DFT of Z * DFT(padded train of stored profiles)
             if (d.has_wake && wake.size() == nrec * nb * n && zre.size() == N / 2) {
